@@ -92,8 +92,8 @@ pub fn k02_2_rewind<S: Src, const K: usize>(s: &mut S) {
             // entry that contains q
             let pos = (q - start_index) / interval as u64; // 0..=K
             let pos = if pos > K as u64 { K as u64 } else { pos };
-            s.check(item.log_index == start_index + pos * interval as u64, "rewind entry is not the one containing the cut index");
-            s.check(pop_count == K as u64 - pos, "number of popped index entries differs from the entries after the cut");
+            vcheck!(s, item.log_index == start_index + pos * interval as u64, "rewind entry is not the one containing the cut index");
+            vcheck!(s, pop_count == K as u64 - pos, "number of popped index entries differs from the entries after the cut");
             // bytes those popped entries occupy in the index area, as write() emitted them
             let mut want = 0u64;
             let mut wide = false;
@@ -114,12 +114,12 @@ pub fn k02_2_rewind<S: Src, const K: usize>(s: &mut S) {
             if wide {
                 s.tag("index-delta-width-differs-from-interval-width");
             }
-            s.check(file_index_len == want, "index cursor rewind differs from the bytes the popped entries occupy");
-            s.check(cursor - file_index_len >= LOG_INDEX_HEADER_LEN, "index cursor rewound into the header");
+            vcheck!(s, file_index_len == want, "index cursor rewind differs from the bytes the popped entries occupy");
+            vcheck!(s, cursor - file_index_len >= LOG_INDEX_HEADER_LEN, "index cursor rewound into the header");
         }
         Err(e) => {
             std::mem::forget(e);
-            s.check(false, "no index entry found for an index inside the log");
+            vcheck!(s, false, "no index entry found for an index inside the log");
         }
     }
     std::mem::forget(m);
@@ -160,19 +160,19 @@ pub fn k02_3_read_indexs<S: Src, const K: usize>(s: &mut S) {
     let first = InnerIdxDto { log_index: start_index, file_index: 4096 };
     match LogInnerManager::read_indexs(&area, first, interval as u64) {
         Ok((got, cur)) => {
-            s.check(got.len() == K + 1, "number of index entries read back differs from the number written");
-            s.check(cur + LOG_INDEX_HEADER_LEN == cursor, "index cursor read back differs from the cursor after writing");
+            vcheck!(s, got.len() == K + 1, "number of index entries read back differs from the number written");
+            vcheck!(s, cur + LOG_INDEX_HEADER_LEN == cursor, "index cursor read back differs from the cursor after writing");
             if got.len() == K + 1 {
                 let p = s.usize();
                 s.assume(p <= K);
-                s.check(got[p].log_index == indexs[p].log_index, "log index of an entry read back differs");
-                s.check(got[p].file_index == indexs[p].file_index, "file offset of an entry read back differs");
+                vcheck!(s, got[p].log_index == indexs[p].log_index, "log index of an entry read back differs");
+                vcheck!(s, got[p].file_index == indexs[p].file_index, "file offset of an entry read back differs");
             }
             std::mem::forget(got);
         }
         Err(e) => {
             std::mem::forget(e);
-            s.check(false, "read_indexs fails on what write() emitted");
+            vcheck!(s, false, "read_indexs fails on what write() emitted");
         }
     }
     std::mem::forget(indexs);
@@ -194,10 +194,10 @@ pub fn k02_4_start_index<S: Src, const K: usize>(s: &mut S) {
     if q >= start_index {
         let pos = (q - start_index) / interval as u64;
         let pos = if pos > K as u64 { K as u64 } else { pos };
-        s.check(e.log_index == start_index + pos * interval as u64, "scan does not start at the greatest index entry <= start");
-        s.check(e.log_index <= q, "scan starts after the requested index");
+        vcheck!(s, e.log_index == start_index + pos * interval as u64, "scan does not start at the greatest index entry <= start");
+        vcheck!(s, e.log_index <= q, "scan starts after the requested index");
     } else {
-        s.check(e.log_index == start_index, "scan for an index before the file does not start at its first entry");
+        vcheck!(s, e.log_index == start_index, "scan for an index before the file does not start at its first entry");
     }
     vcover!(s, q > start_index + interval as u64, "start beyond the first interval");
     std::mem::forget(m);
